@@ -1,4 +1,6 @@
 import Whawty.Model.Trace
+import Whawty.Model.Path
+import Whawty.Model.Store
 import Driver.Proto
 namespace Whawty.TraceCmd
 open Whawty Whawty.Proto Whawty.Persist
@@ -157,6 +159,11 @@ def predict (cmd : List String) : Option String :=
   | "tr.c09" :: args => (pTr args).map fun t => let r := c09 t; if r == "ok" then skeletonCheck t else r
   | "tr.c03" :: args => (pTr args).map c03
   | "tr.c15ro" :: args => (pTr args).map c15ro
+  | ["path.file", base, user, adm] => do
+    let ext := if ← pBool adm then Store.adminExt else Store.userExt
+    pure (sBytes (Path.getFilename (← pBytes base) (← pBytes user) ext))
+  | ["path.join", a, b] => do pure (sBytes (Path.join2 (← pBytes a) (← pBytes b)))
+  | ["path.clean", a] => do pure (sBytes (Path.clean (← pBytes a)))
   | _ => none
 
 end Whawty.TraceCmd
